@@ -14,7 +14,8 @@ RULE = ("grammar-generated task programs (profiles %s; trees and DAGs of tasks, 
         "and raising flushes, nested yield structures, errors, try/except, synchronous re-entry, contexts) interpreted on "
         "the real scheduler and replayed in the Lean machine with the implementation's flush choices; non-trivial = at "
         "least 2 tasks and 1 scheduler flush; distinct by hash of (configuration, programs)" % (", ".join(p for p, _ in MIX)))
-TRUSTED = cc.TRUSTED_CORE
+RULE += cc.ASYNCIO_RULE
+TRUSTED = cc.TRUSTED_CORE + cc.TRUSTED_ASYNCIO
 ASSUMPTIONS = cc.ASSUMPTIONS_CORE
 
 
@@ -29,6 +30,8 @@ def extra(tier, rng):
     res += [{"special": "longloop", "n": n} for n in ((30, 2500) if tier == "quick" else (30, 2500, 20000))]
     res.append({"cfg": {"kinds": {}}, "family": ["many-yields", 1200 if tier == "quick" else 3000]})
     res.append({"cfg": {"kinds": {}}, "family": ["wide", 1100 if tier == "quick" else 2600]})
+    res += cc.asyncio_cases(PID, tier, cc.fork(rng, "aio"))
+    res += cc.corefam4.aiostart_cases(tier, cc.fork(rng, "aiostart"))
     return res
 
 
